@@ -17,6 +17,8 @@ keeps only 8 words of `x` (the code's own limit).
 -/
 import Ymq.Lemmas.RelationsStore
 import Ymq.Lemmas.RelationsFinal
+import Ymq.Lemmas.RelationsDisjoint
+import Ymq.Lemmas.RelationsNoPanic
 
 namespace Ymq.C11
 open Ymq.Relations
@@ -172,6 +174,115 @@ example :
     obtain ⟨rfl, rfl⟩ := hpq
     decide
 
+/-- The separate invariant the property's anchor names ("No key is common with partial map"): the
+code does maintain it. If no stored double has a prime that is a key of `partial` before an `add`,
+none has afterwards — although the invariant is broken in the middle of a walk (the trailing
+`walk_doubles` calls re-enter walks that are still in progress further up the stack; the proof
+carries the set of their roots). Validity (`add_inv`) does not depend on it. -/
+theorem doubles_disjoint_add (s s' : Store) (r : Relation) (pq : Option (Nat × Nat)) (hi : Inv s)
+    (hn : s.n ≤ 2 ^ 512) (hin : InputOK s.n r pq) (h : add r pq s = .ok s')
+    (hd : ∀ p q b, ((p, q), b) ∈ s.doubles → (∀ c, (p, c) ∉ s.partials) ∧ (∀ c, (q, c) ∉ s.partials)) :
+    ∀ p q b, ((p, q), b) ∈ s'.doubles → (∀ c, (p, c) ∉ s'.partials) ∧ (∀ c, (q, c) ∉ s'.partials) := by
+  have hD : Disj s := by
+    intro k ⟨b, hb⟩
+    obtain ⟨h1, h2⟩ := hd k.1 k.2 b hb
+    exact ⟨fun ⟨c, hc⟩ => h1 c hc, fun ⟨c, hc⟩ => h2 c hc⟩
+  have := add_disj h hi (by rw [X512_eq]; exact hn) hin hD
+  intro p q b hb
+  obtain ⟨h1, h2⟩ := this (p, q) ⟨b, hb⟩
+  exact ⟨fun c hc => h1 ⟨c, hc⟩, fun c hc => h2 ⟨c, hc⟩⟩
+
+/-- ... hence after every finite history from the empty store. -/
+theorem doubles_disjoint (n fbsize maxlarge : Nat) (hn : n ≤ 2 ^ 512)
+    (ops : List (Relation × Option (Nat × Nat))) (hok : HistoryOK n ops) (s' : Store)
+    (h : runHistory ops (Store.new n fbsize maxlarge) = .ok s') :
+    ∀ p q b, ((p, q), b) ∈ s'.doubles → (∀ c, (p, c) ∉ s'.partials) ∧ (∀ c, (q, c) ∉ s'.partials) := by
+  have hD0 : Disj (Store.new n fbsize maxlarge) := by intro k ⟨b, hb⟩; cases hb
+  have := runHistory_disj ops _ s' h (inv_new n fbsize maxlarge) (by rw [X512_eq]; exact hn) hok hD0
+  intro p q b hb
+  obtain ⟨h1, h2⟩ := this (p, q) ⟨b, hb⟩
+  exact ⟨fun c hc => h1 ⟨c, hc⟩, fun c hc => h2 ⟨c, hc⟩⟩
+
+/-- `pack` accepts exactly what the callers produce: every factor entry is the sign or a prime in
+`(0, 2^32)`, 2 or odd, with a positive exponent (`FOK`). -/
+theorem pack_total (r : Relation) (hf : FOK r.factors) : ∃ b, pack r = .ok b :=
+  Relations.pack_total hf
+
+/-- `add` never panics inside the callers' contract. `InputOK2 s r pq` states the contract exactly
+as the three sieves guarantee it (siqs.rs:1386-1433, mpqs.rs:732-757, qsieve.rs:441-460 with
+fbase::cofactor): a true congruence with Rust-typed fields; `x < n` (they reduce `x` modulo `n`);
+factor entries `(-1, k)` or `(p, k)`, `0 < p < 2^32`, `p = 2` or odd, `k > 0`; `cyclelen = 1 > 0`; a
+cofactor that is 1, or (below `maxlarge ≤ 2^32 - 1`) a large prime `c` with `1 < c`, `c` odd,
+`c + 1 < 2^32`, or the product of the supplied pair `(p, q)` of such primes. On a store satisfying
+`Inv` and `Inv2` (stored relations can be packed again, keys are usable large primes), no `assert!`,
+`assert_eq!`, `unwrap`, index, `debug_assert!` (`x < n`, `rr.verify`) or division by zero is
+reachable, `assert!(ok)` in `walk_doubles` holds, and the recursion of `walk_doubles`/
+`combine_double` terminates within the fuel `doubles.len() + 1` (each non-leaf call removes a stored
+double first). The only error the model can still return is `.overflow`: a `u64` exponent or
+cycle-length sum exceeding 2^64 (checked profile only; needs ~2^58 combined relations). -/
+theorem add_no_panic (s : Store) (r : Relation) (pq : Option (Nat × Nat)) (hi : Inv s)
+    (hi2 : Inv2 s) (hn : s.n ≤ 2 ^ 512) (hin : InputOK2 s r pq) :
+    ∀ e, add r pq s = .error e → e = .overflow :=
+  add_np hi hi2 (by rw [X512_eq]; exact hn) hin
+
+/-- `Inv2` is preserved as well (so `add_no_panic` applies again to the resulting store). -/
+theorem add_inv2 (s s' : Store) (r : Relation) (pq : Option (Nat × Nat)) (hi : Inv s)
+    (hi2 : Inv2 s) (hn : s.n ≤ 2 ^ 512) (hin : InputOK2 s r pq) (h : add r pq s = .ok s') :
+    Inv2 s' :=
+  Relations.add_inv2 h hi hi2 (by rw [X512_eq]; exact hn) hin
+
+/-- Whole histories: from `RelationSet::new`, any finite sequence of `add`s inside the contract
+runs to completion (or stops on a `u64` counter overflow), never on a panic. -/
+theorem history_no_panic (n fbsize maxlarge : Nat) (hn : n ≤ 2 ^ 512)
+    (ops : List (Relation × Option (Nat × Nat))) (hok : HistoryOK2 n maxlarge ops) :
+    ∀ e, runHistory ops (Store.new n fbsize maxlarge) = .error e → e = .overflow :=
+  runHistory_np ops _ (inv_new n fbsize maxlarge) (inv2_new n fbsize maxlarge)
+    (by rw [X512_eq]; exact hn) hok
+
+/-- non-vacuity of the complete contract: the history modulo 15 used above satisfies it. -/
+example :
+    let ops : List (Relation × Option (Nat × Nat)) :=
+      [({ x := 3, cofactor := 7, cyclelen := 1, factors := [(2, 2), (3, 1)] }, none),
+       ({ x := 5, cofactor := 7, cyclelen := 1, factors := [(5, 1), (-1, 1)] }, none),
+       ({ x := 4, cofactor := 121, cyclelen := 1, factors := [] }, some (11, 11)),
+       ({ x := 2, cofactor := 77, cyclelen := 1, factors := [(2, 1)] }, some (11, 7))]
+    HistoryOK2 15 50 ops := by
+  intro ops op hop s h1 h2
+  have hL7 : LargeOK 7 := by decide
+  have hL11 : LargeOK 11 := by decide
+  simp only [ops, List.mem_cons, List.not_mem_nil, or_false] at hop
+  rcases hop with rfl | rfl | rfl | rfl
+  · refine ⟨⟨⟨by decide, by decide, by intro f hf; revert f; decide⟩, by rw [h1]; decide,
+      by intro f hf; revert f; decide, by intro p q hpq; cases hpq⟩, by rw [h1]; decide,
+      by intro f hf; revert f; decide, by decide, fun _ _ => hL7, by intro p q hpq; cases hpq⟩
+  · refine ⟨⟨⟨by decide, by decide, by intro f hf; revert f; decide⟩, by rw [h1]; decide,
+      by intro f hf; revert f; decide, by intro p q hpq; cases hpq⟩, by rw [h1]; decide,
+      by intro f hf; revert f; decide, by decide, fun _ _ => hL7, by intro p q hpq; cases hpq⟩
+  · refine ⟨⟨⟨by decide, by decide, by intro f hf; revert f; decide⟩, by rw [h1]; decide,
+      by intro f hf; revert f; decide, ?_⟩, by rw [h1]; decide,
+      by intro f hf; revert f; decide, by decide, ?_, ?_⟩
+    · intro p q hpq
+      simp only [Option.some.injEq, Prod.mk.injEq] at hpq
+      obtain ⟨rfl, rfl⟩ := hpq
+      decide
+    · intro _ h; rw [h2] at h; exact absurd h (by decide)
+    · intro p q hpq _
+      simp only [Option.some.injEq, Prod.mk.injEq] at hpq
+      obtain ⟨rfl, rfl⟩ := hpq
+      exact ⟨hL11, hL11⟩
+  · refine ⟨⟨⟨by decide, by decide, by intro f hf; revert f; decide⟩, by rw [h1]; decide,
+      by intro f hf; revert f; decide, ?_⟩, by rw [h1]; decide,
+      by intro f hf; revert f; decide, by decide, ?_, ?_⟩
+    · intro p q hpq
+      simp only [Option.some.injEq, Prod.mk.injEq] at hpq
+      obtain ⟨rfl, rfl⟩ := hpq
+      decide
+    · intro _ h; rw [h2] at h; exact absurd h (by decide)
+    · intro p q hpq _
+      simp only [Option.some.injEq, Prod.mk.injEq] at hpq
+      obtain ⟨rfl, rfl⟩ := hpq
+      exact ⟨hL11, hL7⟩
+
 /-! ## the final combination -/
 
 /-- `try_factor(n, a, b)` for reduced operands `a, b < n` (what `final_step` passes: outputs of
@@ -257,5 +368,20 @@ theorem verify_false_negative :
     let r : Relation := { x := 0, cofactor := 1, cyclelen := 1, factors := [(3, 1), (5, 1), (-1, 1)] }
     Valid 15 r ∧ (verify 15 r).toOption = some false := by
   decide
+
+/-- The contract's bound `p + 1 < 2^32` on large primes is needed: the callers only guarantee
+`p ≤ maxlarge ≤ 2^32 - 1`, and for the one remaining value `p = 2^32 - 1` (= 3·5·17·257·65537, not a
+prime, so unreachable unless the cofactor splitter returns a composite) `walk_doubles(p)` computes
+`root + 1` in `u32`: overflow panic in the checked profile; the release build wraps to 0 and
+`BTreeMap::range` panics unless the maps are empty. History: a single large prime 5, then a double
+(5, 4294967295), both valid modulo 7. Replayed on the real code (corpus/C11, checked profile). -/
+theorem walk_root_max :
+    (match runHistory
+        [({ x := 1, cofactor := 5, cyclelen := 1, factors := [(3, 1)] }, none),
+         ({ x := 1, cofactor := 21474836475, cyclelen := 1, factors := [] }, some (5, 4294967295))]
+        (Store.new 7 1 4294967295) with
+      | .error .overflow => true
+      | _ => false) = true := by
+  decide +kernel
 
 end Ymq.C11
